@@ -81,6 +81,11 @@ def run(ctx):
     shared.acceptor_branches(ctx, "C07-R7", idx)
     shared.permit_before_pull(ctx, "C07-R7")
 
+    ctx.rule("C07-R8", "an I/O fault on one stalled stream (reset, lost) is not re-labelled as a protocol error that closes the connection")
+    from rules.C05 import eof_rules
+    eof_rules(ctx, "C07-R8")
+    shared.uni_upgrade_maps(ctx, "C07-R8")
+
     ctx.rule("C07-R5", "the worker's acceptor branches wait only for the acceptor: every per-stream read happens in a spawned task")
     for name in ("accept_uni", "accept_bi", "accept_datagram"):
         c = idx.find1(r"^wtransport::driver::worker::Worker::%s::\{closure#0\}$" % name)
